@@ -142,3 +142,7 @@ PROPERTY = Property(
         "the latter mismatch is the known finding tmp-ciq-doubled",
     ],
 )
+
+from vf import opt as _opt  # noqa: E402
+
+PROPERTY.clauses.append(_opt.optimised("C01", next(c for c in PROPERTY.clauses if c.name == "posterior-vs-reference"), quick=64, thorough=640))
